@@ -297,7 +297,7 @@ def oracle_sort(inp, out, edge_start, skip):
     elif not nondecreasing([s[0] for s in out["sites"]]):
         fails.append(("sort-sites-key-order", "sites not by position"))
     content = lambda m: (m[1], m[2], m[4], m[5])   # noqa: E731
-    if sorted(map(content, inp["mutations"])) != sorted(map(content, out["mutations"])):
+    if sorted(map(content, inp["mutations"]), key=repr) != sorted(map(content, out["mutations"]), key=repr):
         fails.append(("sort-mutations-not-permutation", "mutation rows not preserved"))
     elif not nondecreasing([m[0] for m in out["mutations"]]):
         fails.append(("sort-mutations-key-order", "mutations not by site"))
@@ -443,6 +443,39 @@ def rich_migrations(rng, desc, p_full_tie=0.0):
     return d
 
 
+RAGGED_LENS = (0, 0, 0, 1, 2, 7, 40)
+
+
+def fatten(rng, desc, one_huge=True):
+    """Give the ragged columns of EVERY table rows of very different lengths, including many
+    empty ones and (once per table) one of a few hundred bytes: edge / migration / node /
+    population metadata, site ancestral_state + metadata, mutation derived_state + metadata,
+    individual location + metadata.  Content-preserving for everything the oracles compare."""
+    d = copy.deepcopy(desc)
+
+    def blob(n):
+        return bytes(rng.randrange(256) for _ in range(n)).hex()
+
+    def text(n):
+        return "".join(rng.choice("ACGT-*") for _ in range(n))
+    for t, cols in (("nodes", [(4, blob)]), ("edges", [(4, blob)]), ("migrations", [(6, blob)]),
+                    ("sites", [(1, text), (2, blob)]), ("mutations", [(2, text), (5, blob)]),
+                    ("individuals", [(3, blob)]), ("populations", [(0, blob)])):
+        rows = d[t]
+        for col, mk in cols:
+            for r in rows:
+                r[col] = mk(rng.choice(RAGGED_LENS))
+            if rows and one_huge and rng.random() < 0.5:
+                rng.choice(rows)[col] = mk(rng.choice([150, 300]))
+    for ind in d["individuals"]:
+        ind[1] = [rng.randrange(-5, 6) for _ in range(rng.choice(RAGGED_LENS[:-1] + (12,)))]
+    # sites at one position must keep a common ancestral state (logical content of a position)
+    by_pos = {}
+    for srow in d["sites"]:
+        srow[1] = by_pos.setdefault(srow[0], srow[1])
+    return d
+
+
 def variants(rng, desc):
     """Optional content-preserving decorations of a base description."""
     d = desc
@@ -452,6 +485,8 @@ def variants(rng, desc):
         d = add_duplicate_sites(rng, d)
     if rng.random() < 0.5:
         d = rich_migrations(rng, d)
+    if rng.random() < 0.2:
+        d = fatten(rng, d)
     return d
 
 
@@ -1537,6 +1572,13 @@ def pedigree_desc(rng, cycle=False):
         inds[a][2] = inds[a][2] + [b]
         inds[b][2] = inds[b][2] + [a]
     d["individuals"] = inds
+    if rng.random() < 0.3:
+        # very different row lengths: long parent lists (padded with NULLs / repeats), long locations
+        for i, ind in enumerate(inds):
+            if rng.random() < 0.5:
+                ind[2] = ind[2] + [rng.choice([NULL] + [p for p in ind[2] if p != NULL]) for _ in range(rng.choice([1, 5, 12]))]
+            ind[1] = [rng.randrange(-5, 6) for _ in range(rng.choice(RAGGED_LENS[:-1] + (25,)))]
+            ind[3] = bytes(rng.randrange(256) for _ in range(rng.choice(RAGGED_LENS + (200,)))).hex()
     for nd in d["nodes"]:
         nd[3] = rng.randrange(nind) if rng.random() < 0.8 else NULL
     return d
@@ -1687,7 +1729,335 @@ class SortInd(Family):
                 yield c
 
 
-FAMILIES = [Sort, Repair, MutParents, Canon, Dedup, Squash, Index, SortInv, SortInd]
+# --------------------------------------------------------------------------
+# Family: a call that raises, then the same call on the SAME TableCollection
+# --------------------------------------------------------------------------
+
+def set_rows(tc, d):
+    """Overwrite the individual / node / edge / site / mutation tables of `tc` in place from `d`."""
+    import tskit
+    sc = d.get("scale", 1)
+    tc.individuals.clear()
+    for fl, loc, par, m in d["individuals"]:
+        tc.individuals.add_row(flags=fl, location=loc, parents=par, metadata=bytes.fromhex(m))
+    tc.nodes.clear()
+    for fl, t, p_, i, m in d["nodes"]:
+        tc.nodes.add_row(flags=fl, time=t, population=p_, individual=i, metadata=bytes.fromhex(m))
+    tc.edges.clear()
+    for l, r, p_, c, m in d["edges"]:
+        tc.edges.add_row(l * sc, r * sc, p_, c, metadata=bytes.fromhex(m))
+    tc.sites.clear()
+    for pos, a, m in d["sites"]:
+        tc.sites.add_row(pos * sc, a, metadata=bytes.fromhex(m))
+    tc.mutations.clear()
+    for site, node, ds, par, t, m in d["mutations"]:
+        tc.mutations.add_row(site, node, ds, parent=par, time=tskit.UNKNOWN_TIME if t is None else t,
+                             metadata=bytes.fromhex(m))
+
+
+class ErrReuse(Family):
+    """op(bad tables) raises -> tables must be as before the call; the defect is repaired in
+    place on the SAME TableCollection; op again must give what op gives on a fresh collection."""
+    name = "errreuse"
+    workers = 8
+    OPS = ("sort", "sort_edge_start", "dedup", "build_index", "mutation_parents", "sort_individuals")
+
+    def generate(self, rng, tier):
+        n = 420 if tier == "quick" else 4000
+        for k in range(n):
+            op = self.OPS[k % len(self.OPS)]
+            if op == "sort_individuals":
+                d = pedigree_desc(rng)
+                d["migrations"] = []
+            else:
+                d = variants(rng, base_desc(rng, small=rng.random() < 0.4))
+                d["migrations"] = [] if op == "mutation_parents" else d["migrations"]
+            if op in ("mutation_parents",):
+                d = gen_ts.random_desc(rng, max_nodes=7, max_L=5, max_sites=3, max_muts=6, p_root=0.05,
+                                       unknown_times=True if rng.random() < 0.7 else None)
+            tabs = tuple(t for t in TABLES if not (op == "mutation_parents" and t == "mutations"))
+            how = rng.choice([1, 1, 1, 0, 2, 3]) if op == "mutation_parents" else rng.randrange(4)
+            yield {"desc": d, "perms": random_perms(rng, d, tabs), "op": op, "how": how,
+                   "pick": rng.randrange(1 << 16)}
+
+    # -- the valid call ------------------------------------------------------
+    @staticmethod
+    def prepare(tc, op):
+        """Bring a fresh collection into the state the operation needs."""
+        if op in ("dedup", "build_index", "mutation_parents"):
+            tc.sort()
+        if op == "mutation_parents":
+            tc.build_index()
+
+    @staticmethod
+    def call(tc, op, arg=None):
+        if op == "sort":
+            tc.sort()
+        elif op == "sort_edge_start":
+            tc.sort(arg)
+        elif op == "dedup":
+            tc.deduplicate_sites()
+        elif op == "build_index":
+            tc.build_index()
+        elif op == "mutation_parents":
+            tc.compute_mutation_parents()
+        elif op == "sort_individuals":
+            tc.sort_individuals()
+
+    def observe(self, case):
+        import numpy as np
+        import tskit
+        d = apply_perms(case["desc"], case["perms"])
+        op, how, pick = case["op"], case["how"], case["pick"]
+        back = back_map(d)
+        if op == "mutation_parents":
+            for m in d["mutations"]:
+                m[3] = NULL
+        arg = min(1, len(d["edges"])) if op == "sort_edge_start" else None
+        fresh = gen_ts.build_tables(d, sort=False, index=False)
+        self.prepare(fresh, op)
+        try:
+            self.call(fresh, op, arg)
+        except tskit.LibraryError as e:
+            return {"skip": "valid call raises: " + err_class(e)}
+        want = dump(fresh, back)
+        want_index = [int(x) for x in fresh.indexes.edge_insertion_order] if fresh.has_index() else None
+        # the same collection, broken first
+        tc = gen_ts.build_tables(d, sort=False, index=False)
+        self.prepare(tc, op)
+        kind = None
+        undo = None
+        if op in ("sort", "sort_edge_start") and how == 0 and op == "sort_edge_start":
+            kind = "edge_start-out-of-range"
+            bad_arg = len(d["edges"]) + 1 + pick % 3
+        elif op == "sort" and how == 0 and len(tc.sites) >= 2 and len(tc.mutations) >= 1:
+            kind = "site_start-intermediate"
+        elif op == "dedup" and how % 2 == 0 and len(tc.sites) >= 2 and len({float(x) for x in tc.sites.position}) >= 2:
+            kind = "unsorted-sites"
+            pos = tc.sites.position.copy()
+            i = int(np.argmax(pos))
+            j = int(np.argmin(pos))
+            saved = pos.copy()
+            pos[i], pos[j] = pos[j], pos[i]
+            tc.sites.position = pos
+            undo = lambda: setattr(tc.sites, "position", saved)      # noqa: E731
+        elif op == "build_index" and how % 2 == 0 and len(tc.edges) >= 2 and \
+                not Index.edges_valid_order({"nodes": want["nodes"], "edges": want["edges"][::-1]}):
+            kind = "unsorted-edges"
+            order = list(range(len(tc.edges)))[::-1]
+            saved = tc.edges.copy()
+            tc.edges.replace_with(tc.edges[order])
+            undo = lambda: tc.edges.replace_with(saved)             # noqa: E731
+        elif op == "mutation_parents" and how % 2 == 1 and any(
+                m[3] != NULL and want["mutations"][m[3]][1] != m[1] for m in want["mutations"]):
+            # a child row moved in front of its parent (on another node): the call must raise,
+            # and after restoring the order the same object must give the fresh result
+            kind = "child-before-parent"
+            cands = [j for j, m in enumerate(want["mutations"]) if m[3] != NULL and want["mutations"][m[3]][1] != m[1]]
+            j = cands[pick % len(cands)]
+            q = want["mutations"][j][3]
+            order = list(range(len(tc.mutations)))
+            order[j], order[q] = order[q], order[j]
+            saved = tc.mutations.copy()
+            tc.mutations.replace_with(tc.mutations[order])
+            undo = lambda: tc.mutations.replace_with(saved)         # noqa: E731
+        elif op == "mutation_parents" and how % 2 == 0:
+            kind = "no-index"
+            tc.drop_index()
+            undo = lambda: tc.build_index()                          # noqa: E731
+        elif op == "sort_individuals" and how % 2 == 0 and len(tc.individuals) >= 2:
+            kind = "parent-cycle"
+            saved = tc.individuals.copy()
+            a = pick % len(tc.individuals)
+            b = (a + 1) % len(tc.individuals)
+            rows = [tc.individuals[i] for i in range(len(tc.individuals))]
+            tc.individuals.clear()
+            for i, r in enumerate(rows):
+                par = list(r.parents) + ([b] if i == a else [a] if i == b else [])
+                tc.individuals.add_row(flags=r.flags, location=r.location, parents=par, metadata=r.metadata)
+            undo = lambda: tc.individuals.replace_with(saved)       # noqa: E731
+        if kind is None:
+            # generic: a dangling reference (checked by every one of these calls)
+            if len(tc.edges) and how % 2 == 1:
+                kind = "edge-child-out-of-range"
+                col = tc.edges.child.copy()
+                saved = col.copy()
+                col[pick % len(col)] = len(tc.nodes) + pick % 2
+                tc.edges.child = col
+                undo = lambda: setattr(tc.edges, "child", saved)    # noqa: E731
+            elif len(tc.mutations):
+                kind = "mutation-node-out-of-range"
+                col = tc.mutations.node.copy()
+                saved = col.copy()
+                col[pick % len(col)] = len(tc.nodes)
+                tc.mutations.node = col
+                undo = lambda: setattr(tc.mutations, "node", saved)  # noqa: E731
+            elif len(tc.nodes) and len(tc.individuals) == 0 or op == "sort_individuals":
+                kind = "node-individual-out-of-range"
+                col = tc.nodes.individual.copy()
+                saved = col.copy()
+                if len(col) == 0:
+                    return {"skip": "nothing to break"}
+                col[pick % len(col)] = len(tc.individuals)
+                tc.nodes.individual = col
+                undo = lambda: setattr(tc.nodes, "individual", saved)  # noqa: E731
+            else:
+                return {"skip": "nothing to break"}
+        before = dump(tc, back) if kind not in ("edge-child-out-of-range",) else None
+        if op == "dedup" and len(tc.sites) == 0:
+            return {"skip": "deduplicate_sites returns early on an empty site table (documented)"}
+        raw_before = tc.copy()
+        had_index = tc.has_index()
+        try:
+            if kind == "edge_start-out-of-range":
+                tc.sort(bad_arg)
+            elif kind == "site_start-intermediate":
+                tc.sort(0, site_start=1, mutation_start=0)
+            else:
+                self.call(tc, op, arg)
+            return {"kind": kind, "raised": None}
+        except (tskit.LibraryError, ValueError, IndexError) as e:
+            raised = err_class(e) if isinstance(e, tskit.LibraryError) else type(e).__name__
+        # 1. the failed call left everything as it was (the parent column is the declared output
+        #    of compute_mutation_parents and is reset before its checks; sort() drops the index
+        #    only on success)
+        a, b = tc.copy(), raw_before
+        if op == "mutation_parents":
+            a.mutations.parent = [NULL] * len(a.mutations)
+            b.mutations.parent = [NULL] * len(b.mutations)
+        unchanged = bool(a.equals(b, ignore_provenance=True))
+        index_kept = tc.has_index() == had_index
+        # 2. repair in place, call again
+        if undo is not None:
+            undo()
+        try:
+            self.call(tc, op, arg)
+        except tskit.LibraryError as e:
+            return {"kind": kind, "raised": raised, "unchanged": unchanged, "index_kept": index_kept,
+                    "second_error": err_class(e)}
+        got = dump(tc, back)
+        got_index = [int(x) for x in tc.indexes.edge_insertion_order] if tc.has_index() else None
+        return {"kind": kind, "raised": raised, "unchanged": unchanged, "index_kept": index_kept,
+                "same_as_fresh": got == want and got_index == want_index,
+                "diff": [t for t in got if got[t] != want[t]]}
+
+    def oracle(self, case, obs):
+        if "skip" in obs:
+            return []
+        op = case["op"]
+        if obs["raised"] is None:
+            return [("errreuse-accepted:%s:%s" % (op, obs["kind"]), "the broken tables were accepted")]
+        fails = []
+        if not obs["unchanged"]:
+            fails.append(("errreuse-failed-call-modified-tables:%s:%s" % (op, obs["kind"]), obs["raised"]))
+        if not obs["index_kept"]:
+            fails.append(("errreuse-failed-call-changed-index:%s:%s" % (op, obs["kind"]), obs["raised"]))
+        if "second_error" in obs:
+            fails.append(("errreuse-second-call-raises:%s:%s" % (op, obs["kind"]), obs["second_error"]))
+        elif not obs["same_as_fresh"]:
+            fails.append(("errreuse-second-call-differs:%s:%s" % (op, obs["kind"]), "tables %r differ from a fresh run" % obs["diff"]))
+        return fails
+
+    def nontrivial(self, case, obs):
+        return "skip" not in obs and obs.get("raised") is not None
+
+    def describe(self, case, obs):
+        return {"op": case["op"], "kind": obs.get("kind", "skip"), "raised": (obs.get("raised") or "none").split(":")[-1]}
+
+
+# --------------------------------------------------------------------------
+# Family: >= 256 rows per table with many key ties
+# --------------------------------------------------------------------------
+
+def big_desc(rng, rows=300, edge_mig_ties=True):
+    """Referentially intact (not a valid tree sequence: sort() only needs check_integrity(0))
+    tables with `rows` rows each and few distinct key values, ragged metadata of mixed lengths."""
+    L = 8
+    nn = 24
+    times = sorted(rng.randrange(0, 6) for _ in range(nn))
+    nodes = [[1 if times[i] == 0 else 0, times[i], NULL, NULL, ""] for i in range(nn)]
+    md = lambda: bytes(rng.randrange(256) for _ in range(rng.choice([0, 0, 1, 3, 9]))).hex()   # noqa: E731
+    edges, seen = [], set()
+    while len(edges) < rows:
+        c = rng.randrange(nn)
+        older = [p for p in range(nn) if times[p] > times[c]]
+        if not older:
+            continue
+        p_ = rng.choice(older[:6])
+        l = rng.randrange(0, L)
+        if not edge_mig_ties and (p_, c, l) in seen:
+            continue
+        seen.add((p_, c, l))
+        edges.append([l, rng.randrange(l + 1, L + 1), p_, c, md()])
+    sites = [[rng.choice([0, 0.5, 1, 3, 3.5, 7]), rng.choice(["A", "", "ACGT" * 5]), md()] for _ in range(rows)]
+    unknown = rng.random() < 0.5
+    muts = []
+    for j in range(rows):
+        muts.append([rng.randrange(min(12, rows)), rng.randrange(nn), rng.choice(["T", "", "G" * 30]), NULL,
+                     None, md()])
+    by_site = {}
+    for j, m in enumerate(muts):
+        by_site.setdefault(m[0], []).append(j)
+    for st, js in by_site.items():
+        known = (not unknown) and st % 2 == 0
+        for j in js:
+            muts[j][4] = (times[muts[j][1]] + rng.randrange(0, 2)) if known else None
+            prev = [k for k in js if k < j and (not known or muts[k][4] >= muts[j][4])]
+            muts[j][3] = rng.choice(prev) if prev and rng.random() < 0.5 else NULL
+    migs, seen = [], set()
+    while len(migs) < rows:
+        row = [rng.randrange(0, 3), 0, rng.randrange(nn), rng.randrange(3), rng.randrange(3), rng.randrange(0, 3), md()]
+        row[1] = rng.randrange(row[0] + 1, L + 1)
+        key = (row[5], row[3], row[4], row[0], row[2])
+        if not edge_mig_ties and key in seen:
+            if len(seen) >= 3 * 3 * 3 * 3 * nn - 5:
+                break
+            continue
+        seen.add(key)
+        migs.append(row)
+    inds = []
+    return {"L": L, "scale": 1, "nodes": nodes, "edges": edges, "sites": sites, "mutations": muts,
+            "individuals": inds, "populations": [[""], ["aa"], [""]], "migrations": migs}
+
+
+class Big(Family):
+    """sort() on tables with hundreds of rows and many key ties (sites and mutations tie on the
+    primary keys everywhere; edges / migrations either with full-key ties — oracle only — or
+    without — also compared with the Coq model), all edge_start forms."""
+    name = "big"
+    workers = 8
+    prelude = PRELUDE
+    shard = 4
+    timeout = 120.0
+
+    def generate(self, rng, tier):
+        n = 3 if tier == "quick" else 40
+        for k in range(n):
+            ties = k % 3 != 0
+            d = big_desc(rng, rows=rng.choice([256, 300, 400]), edge_mig_ties=ties)
+            ne = len(d["edges"])
+            yield {"desc": d, "perms": random_perms(rng, d), "edge_start": rng.choice([0, 0, 1, ne // 2, ne]),
+                   "skip": rng.random() < 0.15}
+
+    observe = Sort.observe
+    starts = staticmethod(Sort.starts)
+
+    def oracle(self, case, obs):
+        return Sort.oracle(self, case, obs)
+
+    def coq_check(self, case, obs):
+        return Sort.coq_check(self, case, obs)
+
+    def nontrivial(self, case, obs):
+        return "out" in obs
+
+    def describe(self, case, obs):
+        d = case["desc"]
+        return {"rows": len(d["sites"]), "edges": len(d["edges"]), "edge_start": min(case["edge_start"], 2),
+                "modelled": not key_ties(desc_rows(d), min(case["edge_start"], len(d["edges"])))}
+
+
+FAMILIES = [Sort, Repair, MutParents, Canon, Dedup, Squash, Index, SortInv, SortInd, ErrReuse, Big]
 
 NOT_COVERED = [
     "canonicalise() with a non-empty migration table: tsk_table_collection_subset returns TSK_ERR_MIGRATIONS_NOT_SUPPORTED, so no canonical output exists to compare",
